@@ -10,24 +10,38 @@
 (* mode "faulty": after a fault prefix and a settle period, packets accepted    *)
 (*   with post = TRUE must be written (at least once) within Bound.             *)
 (* In both modes neither program may exit.                                      *)
+(* Offer(side, p, t) - packet p became readable on side's tun device (clean     *)
+(*   path, or after the settle period); Take(side, p, t) - the program read it. *)
+(*   A program that stops reading its tun device for longer than Bound although *)
+(*   the path is healthy is wedged just as one that reads and never delivers.   *)
 EXTENDS Naturals, Sequences
 
 CONSTANTS Sides, Bound
 
 VARIABLES mode,     \* "clean" | "faulty"
+          offered,  \* offered[s] = set of [p, dl]: readable on s's tun device, not yet read
           due       \* due[s] = sequence of [p, dl, must] accepted from side s's peer direction, oldest first
 
-MPInit == mode = "clean" /\ due = [s \in Sides |-> <<>>]
+MPInit == mode = "clean" /\ due = [s \in Sides |-> <<>>] /\ offered = [s \in Sides |-> {}]
 
-Mode(m) == mode' = m /\ due' = [s \in Sides |-> <<>>]
+Mode(m) == mode' = m /\ due' = [s \in Sides |-> <<>>] /\ offered' = [s \in Sides |-> {}]
 
-NoneOverdue(t) == \A s \in Sides : \A i \in 1..Len(due[s]) : due[s][i].must => due[s][i].dl >= t
+NoneOverdue(t) == /\ \A s \in Sides : \A i \in 1..Len(due[s]) : due[s][i].must => due[s][i].dl >= t
+                  /\ \A s \in Sides : \A o \in offered[s] : o.dl >= t
+
+Offer(s, p, t) == /\ NoneOverdue(t)
+                  /\ offered' = [offered EXCEPT ![s] = @ \cup {[p |-> p, dl |-> t + Bound]}]
+                  /\ UNCHANGED <<mode, due>>
+
+Take(s, p, t) == /\ NoneOverdue(t)
+                 /\ offered' = [offered EXCEPT ![s] = {o \in @ : o.p # p}]
+                 /\ UNCHANGED <<mode, due>>
 
 \* packet p accepted at time t on the tun of `from`, destined to side `to`
 Accept(to, p, t, must) ==
     /\ NoneOverdue(t)
     /\ due' = [due EXCEPT ![to] = Append(@, [p |-> p, dl |-> t + Bound, must |-> must])]
-    /\ UNCHANGED mode
+    /\ UNCHANGED <<mode, offered>>
 
 Pos(s, p) == CHOOSE i \in 1..Len(due[s]) : due[s][i].p = p /\ \A j \in 1..(i - 1) : due[s][j].p # p
 Has(s, p) == \E i \in 1..Len(due[s]) : due[s][i].p = p
@@ -39,11 +53,11 @@ Write(s, p, t) ==
             /\ \A j \in 1..(Pos(s, p) - 1) : ~due[s][j].must   \* in order: only optional ones are skipped
             /\ due' = [due EXCEPT ![s] = SubSeq(@, Pos(s, p) + 1, Len(@))]
        ELSE due' = [due EXCEPT ![s] = SelectSeq(@, LAMBDA x : x.p # p)]
-    /\ UNCHANGED mode
+    /\ UNCHANGED <<mode, offered>>
 
 End(t) == /\ NoneOverdue(t)
           /\ (\A s \in Sides : \A i \in 1..Len(due[s]) : ~due[s][i].must)
-          /\ UNCHANGED <<mode, due>>
+          /\ UNCHANGED <<mode, due, offered>>
 
-MPReset == mode' = "clean" /\ due' = [s \in Sides |-> <<>>]
+MPReset == mode' = "clean" /\ due' = [s \in Sides |-> <<>>] /\ offered' = [s \in Sides |-> {}]
 =============================================================================
